@@ -202,19 +202,8 @@ def _rows(repo, res, bl):
 
 def _columns(repo, res, bl):
     f = bl.methods["_getSolution"]
-    rets = C.returns_of(f)
-    cols = [r for r in rets if isinstance(r.ast.value, ast.Subscript)]
-    ok = len(cols) == 1
-    if ok:
-        sl = cols[0].ast.value.slice
-        ok = isinstance(sl, ast.Tuple) and len(sl.elts) == 2 and isinstance(sl.elts[0], ast.Slice) and sl.elts[0].lower is None and sl.elts[0].upper is None \
-            and is_self_attr(sl.elts[1], "_stateIndex")
-    res.check(ok, "R-COLUMNS", f, "select-columns", "returns solution[:, self._stateIndex]", "observed columns are not solution[:, self._stateIndex]")
-    init = bl.methods["__init__"]
-    st = [m for m in walk_no_nested(init.node) if isinstance(m, ast.Assign) and any(is_self_attr(t, "_stateIndex") for t in m.targets)]
-    ok = len(st) == 1 and norm(st[0].value) == "self._ode.get_state_index(self._stateName)"
-    res.check(ok, "R-COLUMNS", init, "index-from-names", "self._stateIndex = model.get_state_index(state names)",
-              "self._stateIndex is %s" % [norm(m.value) for m in st])
+    # (which columns _getSolution hands back is decided by interpretation: R-ROWMATCH returns-observed-columns; how the index list
+    #  is built from the names by interpretation of the constructor: R-KV ctor(...))
     # the helpers keep the supplied order (abstract execution on a 3-state model)
     cls = M.sim_class(repo)
     names = ["S", "I", "R"]
